@@ -48,8 +48,23 @@ Theorem C06_queue_after_uplink :
               = marks now l (if ack (fc f) then ack_rows (fcnt f) now (ds_outbox st) else reset_rows (ds_outbox st)).
 Proof. exact outbox_after_uplink. Qed.
 
+From Lospan Require Import Base.Outcome Spec.RefDevice Proof.AnswerProof Proof.DownlinkSpecProof.
+(* "Delivered faithfully": what the device decrypts from the frame is, byte for byte, the payload chunk and the port
+   the buffer handed to the encoder (C06_loaded_entry: the queued message's), under the device's own session keys. *)
+Theorem C06_delivered_bytes_are_the_queued_bytes :
+  forall (E D : list N -> list N -> list N),
+    (forall k b, length (E k b) = 16%nat /\ bytes_ok (E k b) = true) ->
+    forall nk ak dev p c buf,
+      down_type (po_mtype p) -> (c < 65536)%N -> (d_addr dev < 4294967296)%N ->
+      (po_frm p = [] \/ port_ok (po_port p)) -> (length (po_frm p) <= 230)%nat ->
+      encode_message E nk ak (downlink_frame dev p c) = Ok buf ->
+      ref_on_downlink E nk ak (d_addr dev) buf
+      = Some (po_mtype p, po_ack p, c, match po_frm p with [] => None | _ => Some (po_port p) end, po_frm p).
+Proof. exact downlink_is_read_by_the_reference_device. Qed.
+
 Print Assumptions C06_oldest_first.
 Print Assumptions C06_loaded_entry.
 Print Assumptions C06_one_frame_per_uplink.
 Print Assumptions C06_isolation.
 Print Assumptions C06_queue_after_uplink.
+Print Assumptions C06_delivered_bytes_are_the_queued_bytes.
